@@ -16,6 +16,15 @@ Definition sd_tag : string := "!sd".
 Fixpoint render_segs (segs : list string) : string :=
   match segs with [] => "" | s :: r => "/" ++ s ++ render_segs r end.
 
+(* the member name the YAML -> JSON conversion gives a scalar key that is not a string: its re-serialised text
+   (serde_yaml prints the number, true/false, null; serde_json reads the key as a string) *)
+Definition key_name (k : yaml) : option string :=
+  match k with
+  | YNum l => Some l
+  | YBool true => Some "true" | YBool false => Some "false"
+  | YNull => Some "null"
+  | _ => None end.
+
 (* collect_tagged_keys: returns the tree with the !sd tags of keys and string items removed, and the
    paths of the tagged nodes - nested ones before the node that encloses them *)
 Fixpoint collect (path : list string) (y : yaml) : res (yaml * list string) :=
@@ -39,7 +48,15 @@ Fixpoint collect (path : list string) (y : yaml) : res (yaml * list string) :=
                          do (v', ps) <- collect (path ++ [esc_tok ks]) v;
                          do (rest', ps') <- go rest;
                          Ok ((k, v') :: rest', (ps ++ ps')%list)
-                     | _ => do (rest', ps') <- go rest; Ok ((k, v) :: rest', ps')
+                     | _ =>
+                         (* repair F25: tags below a scalar key that is not a string are collected as well, under the
+                            member name the conversion gives that key; other keys have no JSON member name *)
+                         match key_name k with
+                         | Some n =>
+                             do (v', ps) <- collect (path ++ [esc_tok n]) v;
+                             do (rest', ps') <- go rest;
+                             Ok ((k, v') :: rest', (ps ++ ps')%list)
+                         | None => do (rest', ps') <- go rest; Ok ((k, v) :: rest', ps') end
                      end
                  end) kvs;
       Ok (YMap (fst r), snd r)
@@ -76,11 +93,37 @@ Fixpoint to_json (y : yaml) : res json :=
                            match l with
                            | [] => Ok []
                            | (YStr k, v) :: r => do j <- to_json v; do r' <- go r; Ok ((k, j) :: r')
-                           | _ :: _ => Err end) kvs;
+                           | (k, v) :: r => match key_name k with
+                                            | Some n => do j <- to_json v; do r' <- go r; Ok ((n, j) :: r')
+                                            | None => Err end
+                           end) kvs;
                 Ok (JObj (fold_left (fun acc kv => obj_insert (fst kv) (snd kv) acc) l []))
   | YTag _ _ => Err
   end.
 
+(* repair F26: two keys of one mapping that are the same string once the !sd tag is removed (serde_yaml itself refuses
+   equal keys, so one of the two carries the tag) are an error, as the same document without its tags is. The walk
+   reports it where it rebuilds the mapping; whatever the walk does not visit (below a key that is no scalar, inside a
+   tagged value) makes the conversion fail anyway, so the outcome is that of a check over the whole tree. *)
+Definition stripped_name (k : yaml) : option string :=
+  match k with
+  | YStr s => Some s
+  | YTag t (YStr s) => if String.eqb t sd_tag then Some s else None
+  | _ => None end.
+
+Fixpoint has_dup (l : list string) : bool :=
+  match l with [] => false | x :: r => existsb (String.eqb x) r || has_dup r end.
+
+Fixpoint clash (y : yaml) : bool :=
+  match y with
+  | YMap kvs =>
+      has_dup (flat_map (fun kv : yaml * yaml => let '(k, _) := kv in match stripped_name k with Some s => [s] | None => [] end) kvs)
+      || existsb (fun kv : yaml * yaml => let '(_, v) := kv in clash v) kvs
+  | YSeq xs => existsb clash xs
+  | YTag _ v => clash v
+  | _ => false end.
+
 (* parse_yaml on the value tree *)
 Definition parse_yaml_tree (y : yaml) : res (json * list string) :=
+  if clash y then Err else
   do (y', ps) <- collect [] y; do j <- to_json y'; Ok (j, ps).
